@@ -394,7 +394,7 @@ Qed.
 
 (* ---------------------------------------------------------------- T2: established sessions are restored *)
 Definition same_core (r r' : sess) : Prop :=
-  s_id r' = s_id r /\ s_bound r' = s_bound r /\ s_v4 r' = s_v4 r /\ s_v6 r' = s_v6 r /\ s_pd r' = s_pd r /\
+  s_id r' = s_id r /\ s_bound r' = s_bound r /\ s_rel4 r' = s_rel4 r /\ s_v4 r' = s_v4 r /\ s_v6 r' = s_v6 r /\ s_pd r' = s_pd r /\
   s_stamp r' = s_stamp r /\ s_l4 r' = s_l4 r /\ s_b4 r' = s_b4 r /\ s_l6 r' = s_l6 r /\ s_b6 r' = s_b6 r /\
   s_v6b r' = s_v6b r.
 
@@ -813,6 +813,7 @@ Proof.
   apply take_addr_spec in TP; [|auto|lia].
   destruct T4 as (M4 & _ & O4). destruct T6 as (M6 & _ & O6). destruct TP as (MP & _ & OP).
   set (r0 := {| s_id := n_id n; s_bound := n_bound n;
+                s_rel4 := match c_proto c with IPoE => true | PPPoE => false end && n_rel4 n && negb (n_bound n);
                 s_appr := match c_proto c with IPoE => true | PPPoE => false end && n_appr n;
                 s_crea := n_crea n;
                 s_v6b := match c_proto c with IPoE => true | PPPoE => false end && n_v6b n;
@@ -1063,4 +1064,58 @@ Proof.
     unfold amem in B. rewrite L in B. discriminate.
   - intros k k' r r' ad G G' IN IN' IP.
     pose proof (j_own _ _ I2 _ _ _ G IN IP). pose proof (j_own _ _ I2 _ _ _ G' IN' IP). congruence.
+Qed.
+
+(* ---------------------------------------------------------------- restored iff not expired *)
+Lemma not_bound_not_expired c now r : s_bound r = false -> expired c now r = false.
+Proof. unfold expired. intros ->. destruct (c_proto c); auto. Qed.
+
+(* IPoE image of a session whose DHCPv4 lease was released while DHCPv6 stays bound (State = "released"), or any
+   other image that is not in the bound / open state: never filtered out, hence restored *)
+Lemma not_bound_restored c s (p : bool) f now k r :
+  aget k (store s) = Some r -> s_bound r = false ->
+  let dp0 := if p then dp s else [] in
+  let cause := match dp0 with [] => 1 | _ => 0 end in
+  exists lg, snd (do_crash c s p f now) = OCrash lg /\
+             restoredQ c f cause dp0 k r (fst (do_crash c s p f now)) lg.
+Proof. intros G B. apply established_restored; auto. apply not_bound_not_expired; auto. Qed.
+
+Lemma restore_one_expired_self c now f cause store0 s lg k r :
+  aget k store0 = Some r -> expired c now r = true ->
+  aget k (live (fst (restore_one c now f cause store0 (s, lg) k))) = aget k (live s) /\
+  aget k (store (fst (restore_one c now f cause store0 (s, lg) k))) = None.
+Proof.
+  intros G EX. unfold restore_one. rewrite G, EX. cbn [fst upd_store live store]. split; auto.
+  apply aget_aremove_eq.
+Qed.
+
+Lemma restore_fold_expired c now f cause store0 k r ks : forall s lg,
+  (forall k r, aget k store0 = Some r -> s_id r = k) ->
+  aget k store0 = Some r -> expired c now r = true ->
+  aget k (live s) = None -> (aget k (store s) = None \/ In k ks) ->
+  aget k (live (fst (fold_left (restore_one c now f cause store0) ks (s, lg)))) = None /\
+  aget k (store (fst (fold_left (restore_one c now f cause store0) ks (s, lg)))) = None.
+Proof.
+  induction ks as [|k0 ks IH]; intros s lg IDS G EX L H; cbn [fold_left].
+  - destruct H as [H|[]]. auto.
+  - destruct (N.eq_dec k0 k) as [E|NE].
+    + subst k0. destruct (restore_one_expired_self c now f cause store0 s lg k r G EX) as (A & B).
+      destruct (restore_one c now f cause store0 (s, lg) k) as [s1 lg1]. cbn [fst] in *.
+      apply IH; auto. congruence.
+    + destruct (restore_one_other c now f cause store0 s lg k k0 NE) as (A & _ & _).
+      destruct (restore_one_effect c now f cause store0 s lg k0 IDS) as (_ & E1 & _).
+      destruct (restore_one c now f cause store0 (s, lg) k0) as [s1 lg1]. cbn [fst] in *.
+      apply IH; auto; [congruence|]. rewrite E1; auto. destruct H as [H|[H|H]]; auto. congruence.
+Qed.
+
+Lemma expired_not_restored c s (p : bool) f now k r :
+  (forall k r, aget k (store s) = Some r -> s_id r = k) ->
+  aget k (store s) = Some r -> expired c now r = true ->
+  aget k (live (fst (do_crash c s p f now))) = None /\ aget k (store (fst (do_crash c s p f now))) = None.
+Proof.
+  intros IDS G EX. unfold do_crash.
+  match goal with |- context [fold_left (restore_one c now f ?CA (store s)) ?L (?S0, ?LG)] =>
+    pose proof (restore_fold_expired c now f CA (store s) k r L S0 LG IDS G EX) as H end.
+  destruct (fold_left _ _ _) as [s1 lg]. cbn [fst] in *. apply H; auto.
+  right. apply isort_In. eapply aget_In; eauto.
 Qed.
